@@ -456,3 +456,19 @@ def run(repo, rep, tier):  # noqa: F811 -- round-6 shape rules appended to the r
 _ADDR6A = ' R05.14: the None guard is decided on the type the registry dispatches on -- is_optional strips Annotated[...] like Registry.get does, at every could_be_none site of the class and codec builders.'
 EXPLANATION += _ADDR6A
 LEVEL_TEXT += _ADDR6A
+
+
+_run_before_r6b = run
+
+
+def run(repo, rep, tier):  # noqa: F811 -- round-6 remedies (core/round6.py)
+    _run_before_r6b(repo, rep, tier)
+    if getattr(rep, "borrowed", False):
+        return
+    from ..core import round6 as _r6b
+    _r6b.element_positions_nullable(repo, rep, "R05.15")
+
+
+_ADDR6C = ' R05.15: inside the registries could_be_none=False is never forced and pack_X / unpack_X judge the same number of element positions afresh (could_be_none=True).'
+EXPLANATION += _ADDR6C
+LEVEL_TEXT += _ADDR6C
